@@ -87,6 +87,14 @@ generator is recognised, and `sum(..)` / `prod(..)` of the empty stream is evalu
 comprehensions, next(), list subscripts (a search written as `next(d for d in candidates if ..)` without a default is
 refuted: StopIteration instead of RuntimeError).
 
+Round 6 additions.  `if c: T[k] = A / else: T[k] = B` (any elif depth) is read as one store of `A if c else B`; the
+form a day-table store serves (days list / units_per_day mapping) is taken from its branch (`days is not None` /
+`days is None`) before the value is looked at, and an entry that does not read its form's argument (default-then-fill)
+is undecided, not refuted.  op_table: a return path that wraps only the left calendar (`self.apply(lambda u: ..)`,
+`FuncCalendar(self, ..)`) and maps None to None is refuted (an operand without information must be skipped, so the
+result is the number).  SearchSim starts at a time of day (09:00) and evaluates the cut-to-midnight idioms, so a step or
+a result that loses the time of day is refuted with the deviating input.
+
 The decision procedures evaluate the (loop free) blocks over finite abstract domains (see c17_util): unit values by
 sign class {None, <0, 0, >0}, dates by their position against a validity interval, direction in {-1, +1}.
 
@@ -171,6 +179,14 @@ def _splices_self(L, selfname):
     return None
 
 
+def _maps_left_only(v, selfname):
+    """`self.apply(<lambda of one argument>)` / `FuncCalendar(self, <lambda>)` -> the lambda"""
+    m = match("$s.apply($fn)", v) or match("FuncCalendar($s, $fn)", v)
+    if m and _name(m['s'], selfname) and isinstance(m['fn'], ast.Lambda) and len(m['fn'].args.args) == 1:
+        return m['fn']
+    return None
+
+
 def _is_helper_call(prog, f, v):
     """a call of a function of the package that is not a class (something the rule would have to look into)"""
     if not isinstance(v, ast.Call):
@@ -243,6 +259,20 @@ def _dunders(ctx):
                     else:
                         o.undecided(f, r, sp, f"`{d}` builds {mk['K'].id} from the left calendar's own operands (`{src(mk['L'])[:60]}`){when} "
                                               f"instead of [self, other]")
+                elif _maps_left_only(vv, f.params[0]) is not None:
+                    # `self.apply(lambda u: ..)` / FuncCalendar(self, lambda u: ..): a unary wrapper of the left operand
+                    lam = _maps_left_only(vv, f.params[0])
+                    u = _e(lam.args.args[0].arg)
+                    try:
+                        leaf = Ev([(u, None, 'sign')]).select(lam.body)
+                    except (U.Unknown, U.WouldRaise):
+                        leaf = None
+                    if isinstance(leaf, ast.Constant) and leaf.value is None:
+                        o.refute(f, r, r, f"`{d}` wraps only the left calendar (`{src(vv)[:60]}`){when}: on a date where the left calendar "
+                                          f"has no information the result is None, but an operand without information is skipped, so the "
+                                          f"result must be the number (the operator applied to [self, FixedCalendar({f.params[1]})])")
+                    else:
+                        o.undecided(f, r, r, f"`{d}` returns the unary wrapper `{src(vv)[:60]}`{when} instead of a combinator")
                 elif _is_helper_call(prog, f, vv):
                     o.undecided(f, r, r, f"`{d}` returns `{src(vv)[:60]}`{when}: a helper the rule cannot look into")
                 elif is_k and not (isinstance(mk['L'], (ast.List, ast.Tuple)) and not any(isinstance(e, ast.Starred) for e in mk['L'].elts)):
@@ -1427,6 +1457,23 @@ def _unfollowed(ctx, f, names):
     return out
 
 
+def _branch_form(ctx, init, stmt):
+    """'list' / 'dict' when the path condition of a statement of WeeklyCalendar.__init__ says which form of the
+    arguments it serves (`days is not None` / `days is None`), else None"""
+    try:
+        cls = U.path_clauses(ctx.prog, init, stmt, ctx.typer)
+    except Exception:
+        return None
+    got = set()
+    for cl in cls:
+        if len(cl) != 1:
+            continue
+        na = U.none_atom(*cl[0])
+        if na is not None and _name(na[0], 'days'):
+            got.add('dict' if na[1] else 'list')
+    return next(iter(got)) if len(got) == 1 else None
+
+
 def _weekday_guard(ctx, o, f, gs, subject, what, keys: bool):
     """a RuntimeError raise, universally bound over `subject` (a list of week days / the keys of a mapping)"""
     cov = set()
@@ -1468,7 +1515,9 @@ def _weekday_guard(ctx, o, f, gs, subject, what, keys: bool):
         stores = []
         for S in (_field_stores(ctx, f, vf[0], 'mapping') if vf else []):
             ens = [S.entry(en) for en in (S.entries or [])]
-            if any(en.value is not None and (U.mentions(en.value, 'days') != keys) and U.mentions(en.value, 'units_per_day') for en in ens):
+            bf = _branch_form(ctx, f, S.outer) if S.outer_func is f else None
+            if (bf is not None and (bf == 'dict') == keys and any(en.kind not in ('empty', 'state') for en in ens)) or (bf is None and any(
+                    en.value is not None and (U.mentions(en.value, 'days') != keys) and U.mentions(en.value, 'units_per_day') for en in ens)):
                 if not any(S.outer is x for x in stores):
                     stores.append(S.outer)
         if not stores:
@@ -2312,6 +2361,17 @@ def _weekly_table(ctx, o, field):
                 o.refute(f, stmt, b[1], f"the day table is filled for week days {days}, expected 0..6 (get_available_units indexes it by weekday())")
                 continue
             form = 'list' if U.mentions(en.value, 'days') else 'dict'
+            bf = _branch_form(ctx, init, S.outer) if S.outer_func is init else None
+            if bf is not None and bf != form:
+                o.undecided(f, stmt, stmt, f"day table entry `{src(en.value)[:40]}` in the {bf} form branch does not read "
+                                           f"{'the days list' if bf == 'list' else 'the units_per_day mapping'}: shape not followed")
+                continue
+            pcs = U.path_clauses(prog, f, stmt, ctx.typer, drop_raising=True) if f is init else []
+            memb = [a for cl in pcs for a, _ in cl if any(isinstance(x, ast.Compare) and any(isinstance(o_, (ast.In, ast.NotIn)) for o_ in x.ops)
+                                                          for x in ast.walk(a))]
+            if memb:
+                o.undecided(f, stmt, stmt, f"day table entry stored under the condition `{src(memb[0])[:50]}`: shape not followed")
+                continue
             cont = 'days' if form == 'list' else 'units_per_day'
             want_in = _e('units_per_day') if form == 'list' else _e(f'units_per_day[{i}]')
             res = {}
